@@ -23,7 +23,7 @@ use sozu_command_lib::proto::command::{
 };
 
 use crate::{
-    engine::{self, Args, CaseReport, CheckResult, Failure, Stats, pick_idx},
+    engine::{self, Args, CaseReport, CheckResult, Failure, Stats},
     lab::{
         self, LabConfig,
         h1::{self, Acceptor, BodyFraming, H1Conn, Kind, ReadOutcome, content},
@@ -51,6 +51,8 @@ const QUIESCE: Duration = Duration::from_secs(FRONT_S as u64 + 4);
 /// are handed over one front timeout (+ 0.6 s) after they went idle.
 const HELD_WAIT: Duration = Duration::from_secs(2 * FRONT_S as u64 + 3);
 const POLL: Duration = Duration::from_millis(200);
+/// connections per client address the cluster `c3` admits (its own limit; the global limit stays off)
+const PER_IP_LIMIT: u64 = 2;
 /// estimated wall time of one storm (sum of the interactions' estimates / concurrency) stays below this
 const STORM_BUDGET_MS: u64 = 13_000;
 
@@ -134,6 +136,9 @@ pub enum Interaction {
     TcpRefused,
     /// HTTP/1.1 upgrade answered 101, a few bytes relayed, closed by the client or by the backend
     WsUpgrade { tls: bool, backend_closes: bool },
+    /// 1..3 connections at the same time, one request each, to the cluster that admits two connections
+    /// per client address (the third is answered 429), then all closed / reset
+    PerIp { conns: u8, tls: bool, reset: bool },
 }
 
 impl Interaction {
@@ -162,6 +167,8 @@ impl Interaction {
             Interaction::TlsAbandon { .. } => "tls_abandoned",
             Interaction::TcpRefused => "tcp_backend_refuses",
             Interaction::WsUpgrade { .. } => "ws_upgrade",
+            Interaction::PerIp { conns, .. } if *conns > PER_IP_LIMIT as u8 => "per_ip_limit_hit",
+            Interaction::PerIp { .. } => "per_ip_slots_taken",
         }
     }
 
@@ -256,6 +263,7 @@ fn interaction() -> impl Strategy<Value = Interaction> {
         2 => (0u8..3, end()).prop_map(|(stage, end)| Interaction::TlsAbandon { stage, end }),
         1 => Just(Interaction::TcpRefused),
         1 => (any::<bool>(), any::<bool>()).prop_map(|(tls, backend_closes)| Interaction::WsUpgrade { tls, backend_closes }),
+        2 => (1u8..=3, any::<bool>(), any::<bool>()).prop_map(|(conns, tls, reset)| Interaction::PerIp { conns, tls, reset }),
     ]
 }
 
@@ -274,7 +282,8 @@ pub fn strategy() -> impl Strategy<Value = Case> {
 
 /// How generated (non-strict) cases stay outside a known finding.
 enum Exclusion {
-    /// the interaction is replaced by this one
+    /// the interaction is replaced by this one (no finding needs it at present)
+    #[allow(dead_code)]
     Replace(Interaction),
     /// the interaction runs as generated; the gauges whose name starts with one of these prefixes may end
     /// up to one above the baseline per such interaction (the worker's baseline is then moved along)
@@ -432,6 +441,7 @@ pub struct StormLab {
     h2: H2Lab,
     env: Env,
     _echo: Acceptor,
+    _limited: Acceptor,
     _refusing: Vec<OwnedFd>,
     baseline: Gauges,
     baseline_underflows: u64,
@@ -473,6 +483,21 @@ impl StormLab {
             position: RulePosition::Tree.into(),
             ..Default::default()
         }));
+        // c3: HTTP cluster (its own HTTP/1.1 mock backend) that admits PER_IP_LIMIT connections per client address
+        let (a3, l3) = lab::bound_listener();
+        h2.worker.add_cluster("c3", |c| c.max_connections_per_ip = Some(PER_IP_LIMIT));
+        h2.worker.add_backend("c3", "c3-0", a3);
+        h2.worker.add_http_frontend("c3", h2.http_addr, "c3.lab", "/");
+        h2.worker.must(RequestType::AddHttpsFrontend(RequestHttpFrontend {
+            cluster_id: Some("c3".to_string()),
+            address: h2.https_addr.into(),
+            hostname: "c3.lab".to_string(),
+            path: PathRule::prefix("/".to_string()),
+            position: RulePosition::Tree.into(),
+            ..Default::default()
+        }));
+        let sh3 = h2.h1_shared.clone();
+        let limited = Acceptor::spawn(l3, move |conn, stream| crate::lab::httplab::serve_conn(3, conn, stream, sh3.clone()));
         // t0: TCP listener relayed to an echo backend
         let tcp = lab::free_addr();
         let (eaddr, elistener) = lab::bound_listener();
@@ -491,7 +516,7 @@ impl StormLab {
         h2.worker.add_backend("t1", "t1-0", raddr2);
 
         let env = Env { http: h2.http_addr, https: h2.https_addr, tcp, tcp_refuse, seed: 0 };
-        let mut lab = StormLab { h2, env, _echo: echo, _refusing: refusing, baseline: Gauges::new(), baseline_underflows: 0, baseline_moved: false };
+        let mut lab = StormLab { h2, env, _echo: echo, _limited: limited, _refusing: refusing, baseline: Gauges::new(), baseline_underflows: 0, baseline_moved: false };
         // warm-up: one request per listener (HTTPS: one HTTP/1.1 and one HTTP/2 connection), so that
         // lazily created gauges exist and one-time allocations are done
         lab.h2.reset_plan(BTreeMap::new(), ReadScript::default(), H2Shared::default());
@@ -526,7 +551,7 @@ impl StormLab {
     /// one plain request per listener: (listener, result)
     fn probes(&mut self, with_h2: bool) -> Vec<(&'static str, Result<(), String>)> {
         let env = self.env;
-        let mut v = vec![("HTTP", probe_h1(env, false)), ("HTTPS", probe_h1(env, true)), ("TCP", probe_tcp(env))];
+        let mut v = vec![("HTTP", probe_h1(env, false)), ("HTTPS", probe_h1(env, true)), ("TCP", probe_tcp(env)), ("per-IP", probe_per_ip(env))];
         if with_h2 {
             v.push(("HTTPS (HTTP/2)", probe_h2(env)));
         }
@@ -757,6 +782,30 @@ fn probe_h2(env: Env) -> Result<(), String> {
         }
     }
     Ok(())
+}
+
+/// as many connections at the same time as the cluster admits per client address: all served
+fn probe_per_ip(env: Env) -> Result<(), String> {
+    let (statuses, _open) = per_ip_connections(env, PER_IP_LIMIT as usize, false)?;
+    if statuses.iter().all(|s| *s == Some(200)) { Ok(()) } else { Err(format!("{PER_IP_LIMIT} connections at the same time from one address to the cluster that admits {PER_IP_LIMIT} per address were answered {statuses:?}")) }
+}
+
+/// `n` connections to c3.lab opened one after the other and kept open, one request on each: (statuses, connections)
+fn per_ip_connections(env: Env, n: usize, tls: bool) -> Result<(Vec<Option<u16>>, Vec<H1Conn<Conn>>), String> {
+    let mut open = vec![];
+    let mut statuses = vec![];
+    for k in 0..n {
+        let conn = h1_connect(env, tls, "c3.lab")?;
+        let mut c = H1Conn::new(conn);
+        c.r.write_all(&request_bytes("c3.lab", &format!("/p{k}"), None, &[])).map_err(|e| format!("write: {e}"))?;
+        let _ = c.r.flush();
+        statuses.push(match c.next_message(Kind::Response { head_request: false }, Instant::now() + Duration::from_secs(4)) {
+            ReadOutcome::Message(m) => m.status(),
+            _ => None,
+        });
+        open.push(c);
+    }
+    Ok((statuses, open))
 }
 
 fn probe_tcp(env: Env) -> Result<(), String> {
@@ -1057,6 +1106,18 @@ fn run_interaction(env: Env, idx: usize, it: &Interaction, held: &Held) -> Seen 
             let _ = s.write_all(b"anyone there?");
             Ok(wait_closed(&mut s, Duration::from_secs(CONNECT_S as u64 * 3 + 2)))
         }
+        Interaction::PerIp { conns, tls, reset } => {
+            let (statuses, open) = per_ip_connections(env, *conns as usize, *tls)?;
+            if *reset {
+                for c in &open {
+                    set_linger0(c.r.sock());
+                }
+            }
+            // other interactions of the storm may hold slots of this address too: 200 or 429, nothing else
+            let answered = statuses.iter().all(|s| matches!(s, Some(200) | Some(429)));
+            let refused = statuses.iter().any(|s| *s == Some(429));
+            Ok(answered && (refused || *conns as u64 <= PER_IP_LIMIT))
+        }
         Interaction::WsUpgrade { tls, backend_closes } => {
             let conn = h1_connect(env, *tls, host0)?;
             let mut c = H1Conn::new(conn);
@@ -1136,7 +1197,10 @@ fn settle(lab: &mut StormLab, max: Duration, tolerance: &dyn Fn(&str) -> u64, ad
             Ok(g) => g,
             Err(e) => return Err(Failure::new("C16/metrics-unanswered", format!("the worker does not answer QueryMetrics after the storm: {e}; storm: {storm}"))),
         };
-        let (within, off): (Vec<_>, Vec<_>) = drift(&lab.baseline, &now).into_iter().partition(|(n, b, v)| v > b && v - b <= tolerance(n));
+        let (within, mut off): (Vec<_>, Vec<_>) = drift(&lab.baseline, &now).into_iter().partition(|(n, b, v)| v > b && v - b <= tolerance(n));
+        // the signature names the most telling gauge: sessions, then slab, buffers, backend connections, then by name
+        const FIRST: [&str; 5] = ["client.connections", "slab.entries", "buffer.in_use", "backend.connections", "http.active_requests"];
+        off.sort_by_key(|(n, _, _)| (FIRST.iter().position(|f| f == n).unwrap_or(FIRST.len()), n.clone()));
         if off.is_empty() {
             if within.is_empty() {
                 return Ok(Settled::Back);
@@ -1315,6 +1379,9 @@ pub fn scenario(lab: &mut StormLab, case: &Case) -> CheckResult {
     // ---- the worker still serves every listener
     for (what, r) in lab.probes(false) {
         if let Err(e) = r {
+            if what == "per-IP" {
+                return Err(Failure::new("C16/per-ip-slot-not-released", format!("after the storm, with every earlier connection closed: {e}; storm: {storm}")));
+            }
             return Err(Failure::new(format!("C16/probe-failed:{}", what.to_lowercase()), format!("after the storm a plain request on the {what} listener is not served: {e}; storm: {storm}")));
         }
     }
@@ -1348,12 +1415,11 @@ pub fn scenario(lab: &mut StormLab, case: &Case) -> CheckResult {
     rep.class_if(workers >= 2, "concurrent");
     rep.nontrivial = abnormal.len() >= 2;
     rep.inner_evaluations = interactions.len() as u64;
-    let _ = pick_idx;
     Ok(rep)
 }
 
 pub fn rule() -> &'static str {
-    "a live worker (front timeout 2 s, back 1 s, connect 1 s, request 1 s; zombie sweep out of the way) with an HTTP, an HTTPS (ALPN h2 + http/1.1) and two TCP listeners; clusters: HTTP/1.1 mock backend, h2c mock backend, a backend address that refuses, TCP echo backend, TCP backend that refuses. Baseline = every gauge QueryMetrics reports (proxy, cluster and backend level; configuration / capacity / health / process gauges left out) once the worker is idle after one warm-up request per listener. A generated storm of 3..25 client interactions, sequential or up to 8 at a time, each ending in its own way: HTTP/1.1 keep-alive requests then close / reset / idle until the proxy's timeout; silent connection; half a head then close / reset; client gone in the middle of a response (H1, TLS, H2; FIN / RST); backend silent (504), closing (502), garbage (502), cutting its response, refusing (503) - each behind an H1, TLS-H1 or H2 client; response never read; unknown host (404); HTTP/2 connection with 1..4 streams (H1 or h2c backend); HTTP/2 connection idle until the proxy's timeout, the socket then kept open and silent for 3 s; HTTP/2 stream reset mid-response; TLS handshake abandoned at three stages; TCP session closed by client / reset / backend / proxy timeout; TCP cluster whose backend refuses; websocket upgrade closed by either side. Then every harness socket is closed and the gauges are polled every 200 ms for up to front timeout + 4 s. Oracle: all gauges return EXACTLY to the baseline (above = leak, below = negative drift), the drain's gauge-underflow counter did not move, the worker is alive and serves one request per listener. A failure is re-run twice on a fresh worker and reported only when it reproduces. Non-trivial: >= 2 different abnormal endings observed in one storm; classes are counted only for interactions that ended the intended way."
+    "a live worker (front timeout 2 s, back 1 s, connect 1 s, request 1 s; zombie sweep configured out of the way) with an HTTP, an HTTPS (ALPN h2 + http/1.1) and two TCP listeners; clusters: HTTP/1.1 mock backend, h2c mock backend, a backend address that refuses, a cluster that admits 2 connections per client address, TCP echo backend, TCP backend that refuses. Baseline = every gauge QueryMetrics reports (proxy, cluster and backend level: client.connections, slab.entries, buffer.in_use, backend.connections, backend.pool.size, connections_per_backend, http.active_requests, protocol.*, h2.connection.*, accept_queue.connections ...; configuration / capacity / health / process gauges left out) once the worker is idle after one warm-up request per listener. A generated storm of 3..25 client interactions, sequential or up to 8 at a time, each ending in its own way: HTTP/1.1 keep-alive requests then close / reset / idle until the proxy's timeout; silent connection (HTTP, HTTPS, TCP listener); half a head then close / reset; client gone in the middle of a response (H1, TLS, H2; FIN / RST); backend silent (504), closing (502), garbage (502), cutting its response, refusing (503) - each behind an H1, TLS-H1 or H2 client; response never read; unknown host (404); HTTP/2 connection with 1..4 streams (H1 or h2c backend); HTTP/2 connection (0..2 streams completed) idle until the proxy's timeout, its socket then kept open and silent; HTTP/2 stream reset mid-response; HTTP/2 client gone mid-response; TLS handshake abandoned at three stages; TCP session closed by client / reset / backend / proxy timeout; TCP cluster whose backend refuses; websocket upgrade closed by either side; 1..3 simultaneous connections to the per-address limited cluster (third: 429). Phase 1: clients that went idle (HTTP/2 idle, response never read, any connection the proxy's timeout did not close within front timeout + 1.5 s) keep their sockets open and silent, all other sockets are closed: within 2 x front timeout + 3 s the worker's own timeouts must bring every gauge back to the baseline. Phase 2: every harness socket is closed and the gauges are polled every 200 ms for up to front timeout + 4 s. Oracle: all gauges return EXACTLY to the baseline (above = leak, below = negative drift), the metrics drain's gauge-underflow counter did not move, the worker is alive, serves one request per listener, and serves as many simultaneous connections from one address as the limited cluster admits (per-address slots released). A failure is re-run twice on a fresh worker and reported only when it reproduces. Non-trivial: >= 2 different abnormal endings observed in one storm; classes are counted only for interactions that ended the intended way."
 }
 
 /// child-process entry: run this shard's scenarios
